@@ -159,8 +159,10 @@ fn real(host: &str, src: &str, sub_mask: u64) -> Option<(hooks::Grep, Real)> {
     gs.iter()
       .map(|g| {
         let p = print_of(g);
-        // a document scanned twice is attributed to the same name twice
-        let hit = prints.iter().position(|x| x.0 == p);
+        // two names may have identical documents (a rule repeating the built-in extraction of a
+        // `<script lang='Js'>`: same language, same regions): each is attributed once before any is
+        // attributed again; a document scanned twice is attributed to the same name twice
+        let hit = prints.iter().enumerate().position(|(i, x)| x.0 == p && !used.contains(&i)).or_else(|| prints.iter().position(|x| x.0 == p));
         if let Some(i) = hit {
           used.push(i);
         }
